@@ -240,3 +240,9 @@ def run(ck):
     # a source wrapped in a TransientSource is re-armed / re-registered with its wrapper (E3: shared with C18)
     common.import_e3(ck, "5", lambda inst: True)
     common.import_results(ck, _C05, "1", "Poll::poll", "5")
+    # ---- shared clauses demonstrated by seeding round 8 (the property broken by added code) --------------------
+    from props import common as _c8
+    import importlib as _il8
+    _m8 = lambda n: _il8.import_module('props.' + n)
+    _c8.import_results(ck, _m8("C16"), "3", "Poll::", "5")  # a re-registration always reaches the poller (the key of a shifted sub-source is the one the kernel reports)
+    _c8.import_results(ck, _m8("C14"), "4", "dispatch_events", "5")  # the polled batch is dispatched whole (one-shot / edge readiness past a cut-off is gone for good)
